@@ -189,6 +189,10 @@ pub struct Scenario {
     /// forever, its pay commands make no progress and its parts never resolve
     #[serde(default)]
     pub freeze: Option<(u8, u16)>,
+    /// delayed RPCs: (ordinal of the RPC among all non-getinfo arrivals of the scenario, number of further
+    /// node-side effects during which it is withheld); released at the latest when nothing else can happen
+    #[serde(default)]
+    pub hold: Vec<(u16, u16)>,
 }
 
 #[derive(Clone, Copy, Debug, Serialize, Deserialize, PartialEq, Eq, Hash)]
@@ -460,8 +464,9 @@ impl Scenario {
             return Class::SelfHintRejected;
         }
         if h.forward_msat.is_none() {
-            // final-hop onions always carry forward_msat in lightningd; not judged
-            return Class::Unknown;
+            // C13 quantifies over requests "with or without forward_msat": without it the request
+            // is not a well-formed trampoline request
+            return Class::NonTrampoline;
         }
         Class::Trampoline { pay: h.pay as usize % self.payments.len(), amount, bolt11 }
     }
@@ -715,6 +720,13 @@ fn build_htlcs(cfg: &Cfg, payments: &[PaymentSpec], plans: &[SetPlan], prof: &Pr
             if h.total_msat.is_none() && n > 1 {
                 h.total_msat = declared_total;
             }
+            // the onion's forward amount is sender-controlled and need not equal what the HTLC carries
+            match if h.forward_msat.is_none() { 99 } else { arg % 13 } {
+                0 => h.forward_msat = Some(amounts[i].saturating_mul(2).saturating_add(1000)),
+                1 => h.forward_msat = Some(amounts[i] / 2),
+                2 => h.forward_msat = Some(amounts[i].saturating_add(send_total)),
+                _ => {}
+            }
             let mut w = 0;
             let mut hit = |weight: u32| {
                 let r = k >= w && k < w + weight;
@@ -722,7 +734,13 @@ fn build_htlcs(cfg: &Cfg, payments: &[PaymentSpec], plans: &[SetPlan], prof: &Pr
                 r
             };
             if hit(prof.w_nontramp) {
-                match arg % 5 {
+                match arg % 6 {
+                    5 => {
+                        h.forward_msat = None;
+                        if arg % 12 == 5 {
+                            h.total_msat = None;
+                        }
+                    }
                     0 => h.forward = true,
                     1 => h.meta = Meta::Absent,
                     2 => h.meta = Meta::NotBolt11,
@@ -806,8 +824,9 @@ pub fn scenario_strategy(prof: Profile) -> BoxedStrategy<Scenario> {
                 Just(vec![]).boxed()
             };
             let probe = prof.probe;
-            (Just(cfg), pays, plans, steps, wf, rf, any::<u64>(), Just(start_height), proptest::collection::vec(any::<u16>(), 12)).prop_map(
-                move |(cfg, payments, plans, steps, write_faults, read_faults, tokio_seed, start_height, shuffle)| {
+            let holds = prop_oneof![3 => Just(vec![]), 2 => (0u16..28, 4u16..45).prop_map(|h| vec![h])];
+            (Just(cfg), pays, plans, steps, wf, rf, any::<u64>(), Just(start_height), proptest::collection::vec(any::<u16>(), 12), holds).prop_map(
+                move |(cfg, payments, plans, steps, write_faults, read_faults, tokio_seed, start_height, shuffle, hold)| {
                     // Known finding of C12 excluded by construction: when amount*ppm exceeds u64 the
                     // plugin's fee test is conservatively false; such amounts (> u64::MAX/ppm msat) are clamped.
                     let mut payments = payments;
@@ -827,7 +846,7 @@ pub fn scenario_strategy(prof: Profile) -> BoxedStrategy<Scenario> {
                             htlcs.swap(i, j);
                         }
                     }
-                    Scenario { cfg, payments, htlcs, steps, write_faults, read_faults, start_height, tokio_seed, c16_profile: false, probe, direct: vec![], initial_parts: vec![], manual_getinfo: false, crash_at: vec![], freeze: None }
+                    Scenario { cfg, payments, htlcs, steps, write_faults, read_faults, start_height, tokio_seed, c16_profile: false, probe, direct: vec![], initial_parts: vec![], manual_getinfo: false, crash_at: vec![], freeze: None, hold }
                 },
             )
         })
